@@ -91,9 +91,14 @@ class Obj:
     return f'Obj(k={self.k}, gen={self.n})'
 
 
+NONE_KEYS = set()      # keys whose traced call returns None (a legitimate value to cache)
+
+
 def _mk_keyed(k):
   def fn():
     KEY_CALLS[k] = KEY_CALLS.get(k, 0) + 1
+    if k in NONE_KEYS:
+      return None
     return Obj(k, KEY_CALLS[k])
   fn.__name__ = fn.__qualname__ = f'keyed_{k}'
   return fn
